@@ -60,6 +60,9 @@ def quad6 (l e : List K) : K :=
   ([0, 1, 2, 3, 4, 5].map fun i => e.getD i 0 * (apply6 l e).getD i 0).sum
 /-- feed the two outputs of a conversion to the next one -/
 def app2 (f : K → K → List K) (l : List K) : List K := f (l.getD 0 0) (l.getD 1 0)
+/-- feed the 36 entries of a 6×6 list to a traced unit taking a 3D fourth order tensor -/
+def app36 (f : K → K → K → K → K → K → K → K → K → K → K → K → K → K → K → K → K → K → K → K → K → K → K → K → K → K → K → K → K → K → K → K → K → K → K → K → List K) (l : List K) : List K :=
+  f (l.getD 0 0) (l.getD 1 0) (l.getD 2 0) (l.getD 3 0) (l.getD 4 0) (l.getD 5 0) (l.getD 6 0) (l.getD 7 0) (l.getD 8 0) (l.getD 9 0) (l.getD 10 0) (l.getD 11 0) (l.getD 12 0) (l.getD 13 0) (l.getD 14 0) (l.getD 15 0) (l.getD 16 0) (l.getD 17 0) (l.getD 18 0) (l.getD 19 0) (l.getD 20 0) (l.getD 21 0) (l.getD 22 0) (l.getD 23 0) (l.getD 24 0) (l.getD 25 0) (l.getD 26 0) (l.getD 27 0) (l.getD 28 0) (l.getD 29 0) (l.getD 30 0) (l.getD 31 0) (l.getD 32 0) (l.getD 33 0) (l.getD 34 0) (l.getD 35 0)
 /-- `a • A + b • B` entry by entry -/
 def lin (a : K) (A : List K) (b : K) (B : List K) : List K := List.zipWith (fun x y => a * x + b * y) A B
 
@@ -81,7 +84,7 @@ def detS (E1 E2 E3 n12 n23 n13 : K) : K :=
 
 /-- unfold the list vocabulary down to field expressions on explicit lists -/
 macro "c21_unfold" : tactic =>
-  `(tactic| simp only [gen_simp, block4, block3, pipe4, sub, transp, ent, sc, condense4, condense3, apply6, quad6, app2,
+  `(tactic| simp only [gen_simp, block4, block3, pipe4, sub, transp, ent, sc, condense4, condense3, apply6, quad6, app2, app36,
       lin, isoStiff, M3.mandel3, M3.sym, M3.trace, M3.one_def, M3.one, M3.add_def, M3.add, M3.smul_def, M3.smul,
       List.flatMap_cons, List.flatMap_nil, List.map_cons, List.map_nil, List.cons_append, List.nil_append,
       List.append_nil, List.getD_cons_succ, List.getD_cons_zero, List.getD_nil, List.sum_cons, List.sum_nil,
@@ -108,15 +111,21 @@ variable [LinearOrder K] [IsStrictOrderedRing K]
 /-- admissible isotropic constants in the (E, ν) form -/
 def Admissible (E nu : K) : Prop := 0 < E ∧ -1 < nu ∧ nu < 1 / 2
 
+/-- non-vanishing denominators of admissible constants (several syntactic forms: `field_simp` looks its
+side conditions up among the hypotheses after its own normalisation) -/
 theorem Admissible.dens {E nu : K} (h : Admissible E nu) :
-    (1 + nu) ≠ 0 ∧ (1 - 2 * nu) ≠ 0 ∧ E ≠ 0 := by
+    (1 + nu) ≠ 0 ∧ (1 - 2 * nu) ≠ 0 ∧ E ≠ 0 ∧ (1 - nu * 2) ≠ 0 ∧ (1 - nu) ≠ 0 ∧ (1 - nu * nu) ≠ 0
+      ∧ (1 - nu ^ 2) ≠ 0 := by
   obtain ⟨hE, h1, h2⟩ := h
-  refine ⟨?_, ?_, ?_⟩
-  · have : 0 < 1 + nu := by linarith
-    exact ne_of_gt this
-  · have : 0 < 1 - 2 * nu := by linarith
-    exact ne_of_gt this
-  · exact ne_of_gt hE
+  have a : 0 < 1 + nu := by linarith
+  have b : 0 < 1 - 2 * nu := by linarith
+  have d : 0 < 1 - nu := by linarith
+  have e : 0 < 1 - nu * nu := by nlinarith
+  refine ⟨a.ne', b.ne', hE.ne', ?_, d.ne', e.ne', ?_⟩
+  · have : 0 < 1 - nu * 2 := by linarith
+    exact this.ne'
+  · have : 0 < 1 - nu ^ 2 := by nlinarith
+    exact this.ne'
 
 /-- `ε : C : ε` of `λ I⊗I + 2μ Id` as a sum of squares, and its positivity -/
 theorem iso_quad_pos {kap mu e0 e1 e2 e3 e4 e5 : K} (hK : 0 < kap) (hG : 0 < mu)
